@@ -215,6 +215,10 @@ def run(ctx):
     for r in urecs:
         if r["id"] in ubad:
             ctx.reject("ufunc-" + "+".join(ubad[r["id"]]), f"spec rejects record: {ubad[r['id']]}", r)
+    if thorough:
+        from .. import suite
+
+        suite.validate(ctx, "C20-")
     ctx.evaluations = len(recs) + len(urecs)
     ctx.extra["ill_posed_records_by_class"] = classes
     missing = [c for c in ("axis-the-grid-lacks", "data-without-a-dimension-of-the-axis", "data-with-two-dimensions-of-the-axis",
